@@ -1,15 +1,40 @@
 (* reads harness output on stdin; for every dump block prints
-     "wf ok" | "wf VIOLATION <clause>@<id> ..."      verdict of the verified checker wf_check
-     "levels ok" | "levels DIFF model=... impl=..."  model of hwloc_connect_levels vs the C levels
+     "wf ok" | "wf VIOLATION <clause>@<id> ..."      verdict of the verified checker wf_check (final dumps)
+     "levels ok" | "levels DIFF model=... impl=..."  model of hwloc_connect_levels vs the C levels (final dumps)
+     "sets ok" | "sets DIFF ids"                     model of root fix-up/propagate_nodeset/fixup_sets/remove_unused_sets
+                                                     applied to the phase-1 raw tree vs the phase-2 raw tree
+     "totals ok" | "totals DIFF ids"                 model of propagate_total_memory on the phase-5 tree vs the final dump
    other lines are echoed *)
 let show ls = Stdlib.String.concat "|" (Stdlib.List.map (fun l -> Stdlib.String.concat "," (Stdlib.List.map (fun i -> string_of_int (int_of_n i)) l)) ls)
+let ids l = Stdlib.String.concat "," (Stdlib.List.map (fun i -> string_of_int (int_of_n i)) l)
+let phase_of head =
+  let h = kv_tbl (split_on ' ' head) in
+  match Stdlib.Hashtbl.find_opt h "phase" with Some p -> int_of_string p | None -> 0
+let p1 = ref None and p5 = ref None
 let () =
   read_blocks stdin
     (fun lines ->
        let p = parse_dump_lines lines in
-       (match wf_check p.pd with
-        | [] -> print_endline "wf ok"
-        | vs -> print_endline ("wf VIOLATION " ^ Stdlib.String.concat " " (Stdlib.List.map (fun (c, i) -> ocaml_of_coq_string c ^ "@" ^ string_of_int (int_of_n i)) vs)));
-       if levels_agree p.pd then print_endline "levels ok"
-       else print_endline ("levels DIFF model=" ^ (match model_levels p.pd with Some ls -> show ls | None -> "none") ^ " impl=" ^ show (dump_levels p.pd)))
-    (fun l -> print_endline l)
+       match phase_of p.raw_head with
+       | 1 -> p1 := Some p.pd
+       | 2 -> (match !p1 with
+               | Some d1 -> (match sets_pipeline_diff d1 p.pd with
+                             | Some [] -> print_endline "sets ok"
+                             | Some l -> print_endline ("sets DIFF " ^ ids l)
+                             | None -> print_endline "sets DIFF tree")
+               | None -> ()); p1 := None
+       | 5 -> p5 := Some p.pd
+       | 0 ->
+         (match wf_check p.pd with
+          | [] -> print_endline "wf ok"
+          | vs -> print_endline ("wf VIOLATION " ^ Stdlib.String.concat " " (Stdlib.List.map (fun (c, i) -> ocaml_of_coq_string c ^ "@" ^ string_of_int (int_of_n i)) vs)));
+         (if levels_agree p.pd then print_endline "levels ok"
+          else print_endline ("levels DIFF model=" ^ (match model_levels p.pd with Some ls -> show ls | None -> "none") ^ " impl=" ^ show (dump_levels p.pd)));
+         (match !p5 with
+          | Some d5 -> (match total_memory_diff d5 p.pd with
+                        | Some [] -> print_endline "totals ok"
+                        | Some l -> print_endline ("totals DIFF " ^ ids l)
+                        | None -> print_endline "totals DIFF tree")
+          | None -> ()); p5 := None
+       | _ -> ())
+    (fun l -> if l = "new rc=0" then (p1 := None; p5 := None); print_endline l)
